@@ -24,19 +24,11 @@ private def parseCfg (ns ess bts fl : String) : Except String Cfg := do
   if !c.valid then throw "invalid configuration"
   return c
 
-/-- RNE of X carries into the next binade (the integer `round<>` then halves the carry instead of clearing it) -/
-private def roundCarries (c : Cfg) (X : Rat) : Bool :=
-  let u := ulpAt c X
-  (rne (X / u) : Rat) * u == pow2 (floorLog2 X + 1)
-
-/-- classes of in-range integer sources: the target binade is subnormal (only es = 1), the rounding carries, or
-    the discarded bits are exactly .101 (the sticky mask of `round<>` skips the bit below the round bit) -/
+/-- class of in-range integer sources: the target binade is subnormal (only es = 1). The classes
+    cfloat.from_int.round_carry and cfloat.from_int.sticky_gap were repaired in /repo (`round<>`): a recurrence has no
+    class and is a VIOLATION -/
 private def intClass (c : Cfg) (X : Rat) : String :=
-  let u := ulpAt c X
-  let q := X / u
   if floorLog2 X < 1 - c.bias then "cfloat.from_int.subnormal_target"
-  else if roundCarries c X then "cfloat.from_int.round_carry"
-  else if q - (q.floor : Rat) == 5 / 8 then "cfloat.from_int.sticky_gap"
   else ""
 
 private def roundTag (c : Cfg) (x : Rat) : String :=
@@ -141,9 +133,9 @@ private def nativeBits (eb fb qm sm : Nat) (v : Val) : Nat :=
 
 /-- classes of from-native lines (inputs only). `subnBranch`: the source is an IEEE subnormal and the code
     reaches its unimplemented "source is subnormal" branch (returns the cleared value +0). -/
-private def fromClass (c : Cfg) (src : Val) (subnBranch : Bool) (payloadNaN : Bool) : String :=
+private def fromClass (c : Cfg) (src : Val) (subnBranch : Bool) : String :=
   match src with
-  | .nan _ => if payloadNaN then "cfloat.from_ieee.nan_payload" else ""
+  | .nan _ => ""      -- cfloat.from_ieee.nan_payload was repaired in /repo: a NaN source that does not give a NaN is a VIOLATION
   | .fin _ m =>
     if m = 0 then ""
     else if subnBranch then "cfloat.from_ieee.subnormal_source"
@@ -166,7 +158,10 @@ def cfloatHandler : Handler := fun lhs rhs => do
       if op == "cmp" then
         let m := cmpModelMask c a b
         let s := cmpSpecMask c a b
+        -- D3 (cfloat.eq.bitwise_zero, recorded again): both operands read as zero and the encodings differ
+        let zeroAlias := (cfVal c a).isZero && (cfVal c b).isZero && a != b
         return { model := toHex m, specOk := r == s, reason := s!"expected mask {toHex s}",
+                 cls := if zeroAlias then "cfloat.eq.bitwise_zero" else "",
                  tag := "cmp/" ++ (if (cfVal c a).isNan || (cfVal c b).isNan then "nan" else if s % 2 == 1 then "eq" else if s &&& 4 != 0 then "lt" else "gt"),
                  trivial := (cfVal c a).isNan || (cfVal c b).isNan }
       if !(["add", "sub", "mul", "div"].contains op) then throw s!"unknown op {op}"
@@ -217,6 +212,8 @@ def cfloatHandler : Handler := fun lhs rhs => do
         let X := absR (v : Rat)
         return { model := toHex m, specOk := ok,
                  reason := if v = 0 then "zero expected" else "expected " ++ showExpect c (.real (v : Rat)),
+                 -- cfloat.from_int.out_of_range (recorded again, the repair was withdrawn): no range check — beyond the largest
+                 -- finite value, or without supernormals in the binade of the all-ones exponent
                  cls := if v = 0 then "" else if overflows c X || (if c.sup then false else floorLog2 X == c.maxExp) then "cfloat.from_int.out_of_range"
                         else intClass c X,
                  tag := "fromi/" ++ (if v = 0 then "zero" else roundTag c (v : Rat)), trivial := v == 0 }
@@ -229,6 +226,8 @@ def cfloatHandler : Handler := fun lhs rhs => do
         let X : Rat := (v : Rat)
         return { model := toHex m, specOk := ok,
                  reason := if v = 0 then "zero expected" else "expected " ++ showExpect c (.real (v : Rat)),
+                 -- cfloat.from_int.out_of_range (recorded again, the repair was withdrawn): no range check — beyond the largest
+                 -- finite value, or without supernormals in the binade of the all-ones exponent
                  cls := if v = 0 then "" else if overflows c X || (if c.sup then false else floorLog2 X == c.maxExp) then "cfloat.from_int.out_of_range"
                         else intClass c X,
                  tag := "fromu/" ++ (if v = 0 then "zero" else roundTag c (v : Rat)), trivial := v == 0 }
@@ -247,14 +246,12 @@ def cfloatHandler : Handler := fun lhs rhs => do
             let w := stepExpect c up s x
             (canon && valEqZeroInsensitive (cfVal c r) w, s!"expected {showVal w}", false)
           | _ => (canon, "bit set above nbits", true)
+        -- the classes cfloat.dec.block_overflow (D6), cfloat.inc.minneg_manyblocks, cfloat.step.negative_zero and
+        -- cfloat.step.zero_alias were repaired in /repo: a recurrence has no class and is a VIOLATION
         let cls :=
-          if !up && a == full - 1 && c.nbits < c.nrBlocks * c.bt then "cfloat.dec.block_overflow"
-          else if up && c.nrBlocks > 4 && isMinNegEnc c a && a != c.signMask + 1 then "cfloat.inc.minneg_manyblocks"
-          else match cfVal c a with
+          match cfVal c a with
             | .fin s x =>
-              if x == 0 && !isZeroEnc c a then "cfloat.step.zero_alias"
-              else if x == 0 && s && (up || !c.sub) then "cfloat.step.negative_zero"
-              else if x == maxFinite c && s != up && !c.sup then "cfloat.step.maxpos_nosup"
+              if x == maxFinite c && s != up && !c.sup then "cfloat.step.maxpos_nosup"
               else ""
             | _ => ""
         return { model := toHex m, specOk := ok, reason := if canon then why else "bit set above nbits",
@@ -301,9 +298,9 @@ def cfloatHandler : Handler := fun lhs rhs => do
         let some r := parseHex rs | throw "r"
         if a ≥ full then throw "operand out of range"
         let w := if op == "toint" then 32 else 64
-        -- to_int goes through float, to_long_long through double
-        let (teb, tfb) := if op == "toint" then (8, 23) else (11, 52)
-        let via := toNativeIn c teb tfb a
+        -- to_int (since the repair "to_int() must not round the value to float before truncating") and to_long_long
+        -- both go through double
+        let via := toNativeIn c 11 52 a
         let m := match via with | .fin s x => toTwos w (truncZ (if s then -x else x)) | _ => 0
         let (ok, why) := match cfVal c a with
           | .fin s x =>
@@ -311,10 +308,7 @@ def cfloatHandler : Handler := fun lhs rhs => do
             (r == toTwos w t, s!"expected {t}")
           | _ => (true, "")
         return { model := toHex m, specOk := ok, reason := why,
-                 cls := match cfVal c a, via with
-                   | .fin _ x, .fin _ y => if x != y then "cfloat.to_int.via_float" else ""
-                   | _, _ => "",
-                 tag := op }
+                 tag := op }   -- cfloat.to_int.via_float was repaired in /repo: no class, a wrong integer is a VIOLATION
       | "fromd" | "fromf" =>
         let some r := parseHex rs | throw "r"
         let m := fromIeee c eb fb qm sm a
@@ -325,13 +319,10 @@ def cfloatHandler : Handler := fun lhs rhs => do
           | .fin s x => if x == 0 then .zero (some s) else .real (if s then -x else x)
         let ok := satisfies c e r
         let rawExp := (a >>> fb) % 2 ^ eb
-        let rawFrac := a % 2 ^ fb
-        let fmask := 2 ^ fb - 1
-        let recognised := rawFrac == (fmask &&& sm) || rawFrac == (fmask &&& (qm ||| sm)) || rawFrac == (fmask &&& qm)
         return { model := toHex m, specOk := ok, reason := "expected " ++ showExpect c e,
                  cls := fromClass c src
                    (rawExp == 0 && !(c.nbits == 1 + eb + fb && c.es == eb) &&
-                    (0 : Int) - ((2 ^ (eb - 1) : Nat) - 1 : Int) ≥ (if c.sub then c.minExpSubnormal - 1 else c.minExpNormal)) (!recognised),
+                    (0 : Int) - ((2 ^ (eb - 1) : Nat) - 1 : Int) ≥ (if c.sub then c.minExpSubnormal - 1 else c.minExpNormal)),
                  tag := op ++ "/" ++ expectTag c e, trivial := match e with | .real _ => false | _ => true }
       | _ => throw s!"unknown op {op}"
     | _, _, _ => throw "arity"
